@@ -99,7 +99,7 @@ def handle (cmd : String) (args : List String) : Option String :=
     let kd ← parseBool? kd; let vals ← parseIntList? vals
     let g : Grid Int := (cart (nb.map List.range)).zip vals
     let r := gridTreeReduce isumNat isumNat sp kd (depth - 1) nb g
-    pure ("ok " ++ fmtNatList r.1 ++ " " ++ fmtIntList ((sortByKeyL r.2).map (·.2)))
+    pure ("ok " ++ fmtNatList (if kd then r.1 else dropReduced sp r.1) ++ " " ++ fmtIntList ((sortByKeyL r.2).map (·.2)))
   | "rd.tree_argmin", [k, depth, bl] => do
     let k ← k.toNat?; let depth ← depth.toNat?; let bl ← parseIntLL? bl
     if k = 0 then pure "err ValueError" else
